@@ -187,14 +187,15 @@ func (e *explorer) record(x *ExecResult, prefix []int, used int) {
 				y := runOnce(ch, r == 4, e.cfg.Sleep, e.body)
 				w := e.oracle(y)
 				same := w.Key == v.Key && fmt.Sprint(y.Choices()) == fmt.Sprint(ch)
-				if w.Key == v.Key && w.Fail != "" && (!same || w.Fail != v.Fail || (r < 4 && fmt.Sprint(y.Log) != fmt.Sprint(x.Log))) {
-					// the same clause fails every time the schedule is replayed, only the details (or the number of
-					// steps the code takes) differ: something the scheduler does not own (map iteration order in
-					// the code under test, say) reaches the observation. The failure itself is reproducible - it is
-					// reported, with that remark; a replay that does NOT fail is another matter (below).
+				if w.Fail != "" && (!same || w.Fail != v.Fail || (r < 4 && fmt.Sprint(y.Log) != fmt.Sprint(x.Log))) {
+					// the schedule fails every time it is replayed, only the details (or the number of steps the code
+					// takes, or - where the observed results are part of the clause's key - the key) differ: something
+					// the scheduler does not own (map iteration order in the code under test, or state the code keeps
+					// from one execution to the next) reaches the observation. The failure itself is reproducible - it
+					// is reported, with that remark; a replay that does NOT fail is another matter (below).
 					if !varies {
 						varies = true
-						v.Fail += " [the details of this failure vary between replays of the one schedule: something outside the scheduler's control - e.g. map iteration order in the code under test - reaches the observation]"
+						v.Fail += " [the details of this failure vary between replays of the one schedule: something outside the scheduler's control - e.g. map iteration order in the code under test, or state it keeps between executions - reaches the observation]"
 					}
 					desc = y.Desc
 					continue
